@@ -156,6 +156,107 @@ def rand_doc(r, size):
     return [("b", bcodes.pop(), rand_elements(r, size, True, fcodes)) for _ in range(r.randint(0 if r.random() < 0.05 else 1, size["blocks"]))]
 
 
+def norm(s):
+    """name / code equivalence as far as the generator varies spellings: ASCII case folding"""
+    return "".join(chr(ord(ch) + 32) if "A" <= ch <= "Z" else ch for ch in s)
+
+
+def respell(r, s):
+    """another spelling of the same (normalised) name: ASCII letters change case"""
+    out = "".join((ch.swapcase() if ch.isascii() and ch.isalpha() and r.random() < 0.6 else ch) for ch in s)
+    return out
+
+
+def plant_dups(r, doc, size):
+    """duplicate data names (scalar against scalar / loop, loop header against container / itself), duplicate frame codes
+    and duplicate block codes — the second occurrence in the same or another ASCII-case spelling"""
+    doc = [(b[0], b[1], list(b[2])) for b in doc]
+
+    def names_of(els):
+        out = []
+        for e in els:
+            if e[0] == "i":
+                out.append(e[1])
+            elif e[0] == "l":
+                out += list(e[1])
+        return out
+
+    def dup_in(els, allow_frames):
+        ns = names_of(els)
+        k = r.random()
+        if ns and k < 0.35:
+            # a scalar item with a name the container already has (or will have: the FIRST occurrence wins)
+            n = r.choice(ns)
+            els.insert(r.randint(0, len(els)), ("i", respell(r, n) if r.random() < 0.5 else n, rand_value(r)))
+        elif ns and k < 0.6:
+            # a loop whose header repeats a name of the container and / or one of its own
+            n = r.choice(ns)
+            fresh = [x for x in ["_n1", "_n2", "_N3"] if norm(x) not in {norm(y) for y in ns}]
+            hdr = [fresh[0], respell(r, n) if r.random() < 0.5 else n] if fresh else [n]
+            if fresh and r.random() < 0.5:
+                hdr.append(respell(r, fresh[0]))          # repeats a name of its own header
+            if fresh and r.random() < 0.3:
+                r.shuffle(hdr)
+                if norm(hdr[0]) in {norm(y) for y in ns} and len(hdr) > 1:
+                    hdr[0], hdr[1] = hdr[1], hdr[0]
+            pk = [[rand_value(r, 1) for _ in hdr] for _ in range(r.randint(1, size["pkts"]))]
+            els.insert(r.randint(0, len(els)), ("l", hdr, pk))
+        elif allow_frames and k < 0.85:
+            fr = [e for e in els if e[0] == "f"]
+            if fr:
+                f = r.choice(fr)
+                sub = rand_elements(r, size, False, [])
+                if f[2] and r.random() < 0.7:
+                    # some content that collides with the frame's earlier content
+                    n = r.choice(names_of(f[2]) or ["_q"])
+                    sub.insert(0, ("i", n, rand_value(r)))
+                els.append(("f", respell(r, f[1]) if r.random() < 0.5 else f[1], sub))
+        else:
+            for e in els:
+                if e[0] == "f" and r.random() < 0.5:
+                    dup_in(e[2], False)
+                    break
+
+    for _ in range(r.randint(1, 3)):
+        k = r.random()
+        if k < 0.3 and doc:
+            b = r.choice(doc)
+            sub = rand_elements(r, size, True, ["z8", "Z9x"])
+            ns = names_of(b[2])
+            if ns and r.random() < 0.7:
+                sub.insert(0, ("i", r.choice(ns), rand_value(r)))
+            doc.append(("b", respell(r, b[1]) if r.random() < 0.5 else b[1], sub))
+        elif doc:
+            dup_in(r.choice(doc)[2], True)
+    # a loop header may not lose all its names (every name dropped: outside the model)
+    return doc
+
+
+def header_ok(doc):
+    """no loop header can lose all its names: its first name is new to everything the (possibly reopened) container could
+    hold, whatever was skipped before"""
+    blocks = {}
+
+    def els_ok(es, seen, frames):
+        for e in es:
+            if e[0] == "i":
+                seen.add(norm(e[1]))
+            elif e[0] == "l":
+                if norm(e[1][0]) in seen:
+                    return False
+                seen |= {norm(n) for n in e[1]}
+            else:
+                fseen = frames.setdefault(norm(e[1]), set())
+                if not els_ok(e[2], fseen, {}):
+                    return False
+        return True
+    for b in doc:
+        seen, frames = blocks.setdefault(norm(b[1]), (set(), {}))
+        if not els_ok(b[2], seen, frames):
+            return False
+    return True
+
+
 # ------------------------------------------------------------------------------------------------ rendering
 
 def gen_ws(r, layout, nl_end=False, allow_empty=False, first=False):
@@ -554,6 +655,11 @@ def parse_dump(t):
 
 # ------------------------------------------------------------------------------------------------ oracle
 
+def normh(h):
+    """normalised form of a name / code given as the hex text of the wire format"""
+    return norm("".join(chr(u) for u in unhexs(h)))
+
+
 MUST, MAY, NOT = "must", "may", "not"
 
 
@@ -572,7 +678,7 @@ class Sim:
     looking at the log.  Records storage classes on the way."""
 
     def __init__(self, evs, prog, storing):
-        self.evs = [e for e in evs if e[0] not in ("ws", "er")]
+        self.evs = [e for e in evs if e[0] != "ws"]            # error callbacks are part of what is checked
         self.prog, self.k, self.h, self.storing = prog, 0, 0, storing
         self.stopped = False
 
@@ -619,70 +725,131 @@ class Sim:
         byp = (r != CONT)
         optional = byp
         for b in doc:
-            bs = {"exists": NOT, "items": {}, "loops": [], "frames": {}}
-            st[b[1]] = bs
-            if self.container(b, bs, byp, True) == "sib":
+            handle = self.storing and not byp          # cif != NULL and nothing being skipped: the block is created
+            key = next((k for k in st if normh(k) == normh(b[1])), None)
+            code = b[1]
+            if handle and key is not None and st[key].get("created"):
+                # CIF_DUP_BLOCKCODE: error callback, the existing block is reopened (its handle goes to the handlers)
+                self.syntax(("er", "11"))
+                bs, code = st[key], key
+            elif key is not None:
+                bs = {"exists": NOT, "items": {}, "loops": [], "frames": {}}      # a bypassed namesake: never created
+            else:
+                bs = {"exists": NOT, "items": {}, "loops": [], "frames": {}}
+                st[b[1]] = bs
+            if self.container(b, bs, byp, True, handle, code) == "sib":
                 byp = True
                 optional = True
         self.opt_end(("ce", "1" if self.storing else "0"), optional)
 
-    def container(self, c, cs, byp, is_block):
+    def present(self, cs):
+        """normalised data names the container holds right now"""
+        out = {normh(n) for n, (_, cls) in cs["items"].items() if cls == MUST}
+        for l in cs["loops"]:
+            if l.get("created") and not l.get("pruned"):
+                out |= {normh(n) for n in l["names"]}
+        return out
+
+    def container(self, c, cs, byp, is_block, handle, code):
+        """`handle`: the container exists in the CIF (non-NULL handle); `code`: the code its handle carries"""
         st_tag, en_tag = ("bs", "be") if is_block else ("fs", "fe")
         for e in c[2]:                      # default classes: nothing stored
             self.prefill(e, cs)
         if byp:
-            cs["exists"] = NOT
+            if not cs.get("created"):
+                cs["exists"] = NOT
+            for e in c[2]:
+                self.element(e, cs, True, False)
             return "go"
-        cs["exists"] = MUST
-        r = self.handler((st_tag, self.hcode(c[1])))
+        if handle:
+            cs["created"] = True
+            cs["exists"] = MUST
+        elif self.storing:
+            cs["exists"] = NOT
+        else:
+            cs["exists"] = MUST
+        cs["closed"] = False
+        r = self.handler((st_tag, self.hcode(code)))
         sib = (r == SKIP_SIB)
         inner_byp = (r != CONT)
-        if inner_byp:
-            cs["exists"] = MAY
         optional = inner_byp
         try:
             for e in c[2]:
-                if self.element(e, cs, inner_byp) == "sib":
+                if self.element(e, cs, inner_byp, handle) == "sib":
                     inner_byp = True
                     optional = True
         except Stop:
             raise
-        r2 = self.opt_end((en_tag, self.hcode(c[1])), optional)
+        # the container has reached its end with CIF_OK: cif_container_prune runs now, just before the end handler
+        cs["closed"] = True
+        for l in cs["loops"]:
+            if l.get("created") and not any(cl == MUST for _, cl in l["pk"]):
+                l["pruned"] = True
+        r2 = self.opt_end((en_tag, self.hcode(code)), optional)
         if r2 == SKIP_SIB:
             sib = True
         return "sib" if sib else "go"
 
     def prefill(self, e, cs):
         if e[0] == "i":
-            cs["items"][e[1]] = (e[2], NOT)
+            cs["items"].setdefault(e[1], (e[2], NOT))
         elif e[0] == "l":
             cs["loops"].append({"names": e[1], "pk": [(p, NOT) for p in e[2]], "open": False, "id": id(e)})
         else:
-            cs["frames"][e[1]] = {"exists": NOT, "items": {}, "loops": [], "frames": {}, "pre": True}
+            cs["frames"].setdefault(e[1], {"exists": NOT, "items": {}, "loops": [], "frames": {}, "pre": True})
 
-    def element(self, e, cs, byp):
+    def element(self, e, cs, byp, handle):
+        """`handle`: the container these elements belong to has a non-NULL handle (duplicates are detected against it)"""
         if e[0] == "i":
             if byp:
                 return "go"
             self.syntax(("dn", e[1]))
+            if handle and normh(e[1]) in self.present(cs):
+                # CIF_DUP_ITEMNAME: error callback, the value is parsed, NO item handler, nothing stored
+                self.syntax(("er", "41"))
+                return "go"
             cs["items"][e[1]] = (e[2], MAY)            # in progress
             r = self.handler(("it", (e[1], e[2])))
             cs["items"][e[1]] = (e[2], MUST if r == CONT else NOT)     # STRICT: SKIP_* = not stored
             return "sib" if r == SKIP_SIB else "go"
         if e[0] == "f":
-            fs = cs["frames"][e[1]]
-            fs.pop("pre", None)
-            fs["items"], fs["loops"], fs["frames"] = {}, [], {}
-            return self.container(e, fs, byp, False)
+            fh = handle and not byp                      # the frame is created (or reopened) in the container
+            key = next((k for k, f in cs["frames"].items() if normh(k) == normh(e[1]) and f.get("created")), None)
+            code = e[1]
+            if fh and key is not None:
+                # CIF_DUP_FRAMECODE: error callback, the existing frame is reopened
+                self.syntax(("er", "21"))
+                fs, code = cs["frames"][key], key
+            elif key is not None or (not fh and self.storing and cs["frames"].get(e[1], {}).get("created")):
+                fs = {"exists": NOT, "items": {}, "loops": [], "frames": {}}      # a bypassed namesake
+            else:
+                fs = cs["frames"][e[1]]
+                fs.pop("pre", None)
+            return self.container(e, fs, byp, False, fh, code)
         # loop
         ls = [l for l in cs["loops"] if l["id"] == id(e)][0]
+        if not byp:
+            self.syntax(("kw", "-"))
+        # the header: data-name callbacks only while nothing is skipped; duplicates are diagnosed in any case — against the
+        # container whenever it has a handle, against the earlier names of the header always
+        slots = []
+        have = self.present(cs) if handle else set()
+        for n in e[1]:
+            if not byp:
+                self.syntax(("dn", n))
+            if normh(n) in have or any(m is not None and normh(m) == normh(n) for m in slots):
+                self.syntax(("er", "41"))
+                slots.append(None)
+            else:
+                slots.append(n)
+        names = [n for n in slots if n is not None]
+        ls["names"] = names
+        ls["pk"] = [([v for v, m in zip(p, slots) if m is not None], cl) for p, cl in ls["pk"]]
         if byp:
             return "go"
-        self.syntax(("kw", "-"))
-        for n in e[1]:
-            self.syntax(("dn", n))
         ls["open"] = True
-        r = self.handler(("ls", tuple(e[1])))
+        r = self.handler(("ls", tuple(names)))
+        ls["created"] = (r == CONT and handle)          # the loop exists in the container from now on
         sib = (r == SKIP_SIB)
         pbyp = (r != CONT)
         # STRICT (documented behaviour, notes/agents/gH.md): a loop bypassed from loop_start or from inside (packet_start /
@@ -693,7 +860,8 @@ class Sim:
         for i, p in enumerate(e[2]):
             if pbyp:
                 continue
-            ls["pk"][i] = (p, MAY)                      # in progress
+            kept = [v for v, m in zip(p, slots) if m is not None]
+            ls["pk"][i] = (kept, MAY)                   # in progress
             r1 = self.handler(("ps", "0"))
             ibyp = (r1 != CONT)
             no_pe = ibyp
@@ -701,15 +869,15 @@ class Sim:
             if r1 == SKIP_SIB:
                 pbyp = True
                 no_le = True
-            for n, v in zip(e[1], p):
-                if ibyp:
+            for n, v in zip(slots, p):
+                if ibyp or n is None:                     # a dropped column: the value is parsed, no item handler
                     continue
                 r2 = self.handler(("it", (n, v)))
                 if r2 == SKIP_SIB:                        # SKIP_CURRENT: the item stays in its packet
                     ibyp = True
                     no_pe = True
                     cls = NOT
-            pe = ("pe", tuple(zip(e[1], p)))
+            pe = ("pe", tuple(zip(names, kept)))
             if no_pe:
                 if self.peek() == pe:
                     raise Bad("event %d: packet_end delivered for a packet that was bypassed" % self.k)
@@ -720,9 +888,9 @@ class Sim:
                 if r3 == SKIP_SIB:
                     pbyp = True
                     no_le = True
-            ls["pk"][i] = (p, cls)
+            ls["pk"][i] = (kept, cls)
         # loop end: handle = names sorted by code unit in storing mode, NULL otherwise
-        exp = ("le", tuple(sorted(e[1])) if self.storing else None)
+        exp = ("le", tuple(sorted(names)) if self.storing else None)
         if no_le:
             if self.peek() is not None and self.peek()[0] == "le":
                 raise Bad("event %d: loop_end delivered for a loop that was bypassed from loop_start or from inside" % self.k)
@@ -757,8 +925,10 @@ def check_store(st, cif, stopped):
                 return "%s: stored loop %s is not in the document" % (where, sorted(names))
             l = cand[0]
             used.add(id(l))
-            if not pk and not stopped:       # after END / an error the prune step of the open containers is skipped (reading note)
-                return "%s: packet-less loop %s left in the CIF" % (where, sorted(names))
+            # packet-less loops are removed when their container ends (cif_container_prune, just before the end handler);
+            # after END / an error only the containers that were still OPEN at that point keep theirs
+            if not pk and (not stopped or cs.get("closed")):
+                return "%s: packet-less loop %s left in a container that was closed" % (where, sorted(names))
             rows = [dict(zip(l["names"], p)) for p, _ in l["pk"]]
             classes = [cl for _, cl in l["pk"]]
 
@@ -775,6 +945,10 @@ def check_store(st, cif, stopped):
         for l in cs["loops"]:
             if id(l) not in used and any(cl == MUST for _, cl in l["pk"]):
                 return "%s: loop %s should be stored" % (where, l["names"])
+            if id(l) not in used and stopped and not cs.get("closed") and l.get("created") and not l.get("pruned") \
+                    and cs["exists"] == MUST:
+                return ("%s: loop %s was created and its container was still open when the parse was stopped: it should be "
+                        "stored (with the packets recorded so far, possibly none)") % (where, l["names"])
         # frames
         for code, fs in cs["frames"].items():
             r = exists(fs, c["frames"].get(code), where + "/save_" + code)
@@ -835,8 +1009,6 @@ def oracle(req, impl):
     wstext = "".join(t for _, segs, _ in toks for _, t in segs if t != "-")
     for mode in ("S", "N"):
         rc, n, evs = sp[mode]
-        if any(e[0] == "er" for e in evs):
-            return "%s: error callback %r on a well-formed document" % (mode, [e for e in evs if e[0] == "er"][0])
         if n != sum(1 for e in evs if e[0] in ("cs", "ce", "bs", "be", "fs", "fe", "ls", "le", "ps", "pe", "it")):
             return "%s: handler call count differs from the logged handler events" % mode
         sim = Sim(evs, prog, mode == "S")
@@ -866,7 +1038,9 @@ def oracle(req, impl):
             why = check_store(st, cif, stopped)
             if why:
                 return "stored CIF: " + why
-    if strip_handles(sp["S"][2]) != strip_handles(sp["N"][2]) or sp["S"][0] != sp["N"][0]:
+    # (with a duplicate diagnostic the two modes legitimately differ: without a CIF only a loop header's own repeats are seen)
+    if not any(e[0] == "er" for e in sp["S"][2] + sp["N"][2]) and \
+            (strip_handles(sp["S"][2]) != strip_handles(sp["N"][2]) or sp["S"][0] != sp["N"][0]):
         return "syntax-only mode delivers a different callback sequence / result than storing mode"
     return None
 
@@ -1037,3 +1211,21 @@ def generate(seed, tier):
         for _ in range(r.randint(0, 5)):
             prog[r.randrange(n)] = r.choice([-1, -1, -2, -2, -3, 7] + CODES)
         yield request(doc, r, "rand", prog)
+    # 4. duplicates under callbacks (accepting error callback): duplicate data names (scalar items, loop headers against the
+    #    container and against themselves), duplicate frame codes, duplicate block codes — same or ASCII-case-variant spelling
+    for i in range(60 if quick else 900):
+        doc = None
+        for _ in range(30):
+            cand = plant_dups(r, rand_doc(r, big if r.random() < 0.5 else small), small)
+            if header_ok(cand):
+                doc = cand
+                break
+        if doc is None:
+            continue
+        n = handler_count(doc)
+        yield request(doc, r, "min" if i % 4 == 0 else "rand", {})
+        for _ in range(3 if quick else 6):
+            prog = {r.randrange(n): r.choice([-1, -2, -3, 7])}
+            if r.random() < 0.4:
+                prog[r.randrange(n)] = r.choice([-1, -2])
+            yield request(doc, r, "rand", prog)
